@@ -135,7 +135,7 @@ func init() {
 	})
 	register(&Prop{
 		ID:    "C14",
-		Rules: []func(*core.Ctx){RLock, RClockEnd, RClockState, RRestart, RPoll, RPeriod, REndCover, rStaleOnly},
+		Rules: []func(*core.Ctx){RLock, RClockEnd, RClockState, RRestart, RPoll, RPeriod, REndCover, RFreshRead, RTickSum, rStaleOnly},
 		Explanation: "Structural skeleton of the timeout machinery only: R-LOCK (fast.start/running under fast.mu, the clock word through sync/atomic), R-CLOCKEND (the clock's end is only raised, under the lock), R-CLOCKSTATE (one place spawns the clock goroutine, under !running; only runClock clears running, after its loop), R-RESTART (a deadline beyond the clock's end always extends the clock), R-POLL (the deadline is polled in scan's and the interpreter's loops), R-STALE (timeout state of a pooled Runner is re-established per call). " +
 			"Every timing statement of the property (no earlier than d, no later than d + a few periods, the stale-clock refresh being right, the goroutine exiting) is NOT decided.",
 	})
